@@ -303,7 +303,9 @@ Forged(b) ==
        user |-> us, key |-> ky, prio |-> HostPrio, tbc |-> 1, copy |-> 0, nom |-> 0] :
         k \in {"req", "succ", "err", "ind", "other"},    \* "other": any class with a non-Binding method
         s \in srcs, t \in tids, u \in BOOLEAN, ra \in {role[peer]},
-        us \in {<<gen[b], rgen[b]>>, <<gen[b], 0>>, <<0, rgen[b]>>},
+        \* 0: another string altogether; a negative number: a string built from that generation's ufrag that is not it
+        \* (extended, truncated, an extra segment) - a USERNAME that resembles the right one is as wrong as any other
+        us \in {<<gen[b], rgen[b]>>, <<gen[b], 0>>, <<0, rgen[b]>>, <<0 - gen[b], rgen[b]>>, <<gen[b], 0 - rgen[b]>>, <<0 - gen[b], 0 - rgen[b]>>},
         ky \in {<<b, gen[b]>>, <<peer, rgen[b]>>, <<peer, 0>>, <<"X", 0>>}}
 Inject(m) == inj < MaxInject /\ inj' = inj + 1 /\ net' = net (+) One(m) /\ out' = EmptyBag
              /\ UNCHANGED <<role, gen, rgen, locals, remotes, pairs, nextId, pend, sel, nomPair, conn, nextTid, ticks, loss, dup, rst, answered, timev, nomv>>
